@@ -99,6 +99,47 @@ theorem accAfter_spec {env : Env} (hp : RulesProgress env.cfg = true) {F D : Nat
   show accAfter post kw.value = kw.value
   exact accAfter_id post _ hpost
 
+/-! ### concatenation -/
+
+theorem SeqAt.append {env : Env} {F : Nat} {c : Core} : ∀ {xs ys : List (Item env F c)} {b b1 b' : Buf},
+    SeqAt xs b b1 → SeqAt ys b1 b' → SeqAt (xs ++ ys) b b' := by
+  intro xs
+  induction xs with
+  | nil => intro ys b b1 b' h1 h2; cases h1; exact h2
+  | cons x xs ih => intro ys b b1 b' h1 h2; cases h1 with | cons ha hr => exact .cons ha (ih hr h2)
+
+theorem SeqEv.split {env : Env} {F : Nat} {c : Core} {blk : Block} {rest : List Block} :
+    ∀ {xs ys : List (Item env F c)} {evs : List Event}, SeqEv blk rest (xs ++ ys) evs →
+    ∃ e1 e2, evs = e1 ++ e2 ∧ SeqEv blk rest xs e1 ∧ SeqEv blk rest ys e2 := by
+  intro xs
+  induction xs with
+  | nil => intro ys evs h; exact ⟨[], evs, rfl, .nil, h⟩
+  | cons x xs ih =>
+    intro ys evs h
+    cases h with
+    | cons hsb hev hr =>
+      rename_i g evs' blk'
+      obtain ⟨e1, e2, he, h1, h2⟩ := ih hr
+      exact ⟨g ++ e1, e2, by rw [he]; simp, .cons hsb hev h1, h2⟩
+
+theorem seqSize_append {env : Env} {F : Nat} {c : Core} (xs ys : List (Item env F c)) :
+    seqSize (xs ++ ys) = seqSize xs + seqSize ys := by
+  simp [seqSize]
+
+/-- **concatenation of two declaration sequences** (C12): run from any state at non-class scope,
+    the source `xs ys` delivers callbacks that split into a group for `xs` and a group for `ys`,
+    each constrained ONLY by its own items and the enclosing block — the same constraints each
+    sequence has when it stands alone (`seq_sound`): nothing of `xs` reaches into `ys` -/
+theorem seq_concat {env : Env} {F : Nat} {c : Core} (xs ys : List (Item env F c)) (w : World) (b1 b' : Buf) (blk : Block)
+    (rest : List Block) (hst : w.stack = blk :: rest) (hk : blk.hdr.kind ≠ .cls) (hmu : w.muted = false)
+    (hx : SeqAt xs w.buf b1) (hy : SeqAt ys b1 b') :
+    ∃ (w7 : World) (e1 e2 : List Event), Ran env F c w (seqSize xs + seqSize ys) b' blk rest (e1 ++ e2) w7 ∧
+      SeqEv blk rest xs e1 ∧ SeqEv blk rest ys e2 := by
+  obtain ⟨w7, evs, hran, hev⟩ := seq_sound (xs ++ ys) w b' blk rest hst hk hmu (hx.append hy)
+  obtain ⟨e1, e2, he, h1, h2⟩ := hev.split
+  rw [seqSize_append, he] at hran
+  exact ⟨w7, e1, e2, hran, h1, h2⟩
+
 /-! ### the stream states used in the non-vacuity examples -/
 
 /-- a stream whose buffer already holds the significant tokens `ts` hands out exactly those -/
